@@ -240,27 +240,44 @@ class DULServiceProvider(threading.Thread):
 
     def _check_outgoing_pdu(self):
         try:
-            if self.dimse_gen:
-                try:
-                    self.primitive = next(self.dimse_gen)
-                    self.event.append(PDU_TO_EVENT[self.primitive.pdu_type])
-                    return True
-                except StopIteration:
-                    self.dimse_gen = None
+            if self.dimse_gen and self._next_fragment():
+                return True
+            if self.event:
+                # message could not be encoded: provider abort is pending
+                return True
             incoming = self.from_service_user.get(False, None)
             if hasattr(incoming, 'pdu_type'):
                 self.primitive = incoming
-            else:
-                self.dimse_gen = incoming
-                self.primitive = next(self.dimse_gen)
-            self.event.append(PDU_TO_EVENT[self.primitive.pdu_type])
-            return True
+                self.event.append(PDU_TO_EVENT[self.primitive.pdu_type])
+                return True
+            self.dimse_gen = incoming
+            return self._next_fragment() or bool(self.event)
         except KeyError:
             raise exceptions.PDUProcessingError(
                 'Unknown PDU {0} with type {1}'.format(self.primitive, self.primitive.pdu_type)
             )
         except queue.Empty:
             return False
+
+    def _next_fragment(self):
+        """Takes next P-DATA-TF PDU of the message that is being sent.
+
+        :return: ``True`` if there was one, ``False`` if the message is complete
+        """
+        try:
+            self.primitive = next(self.dimse_gen)
+        except StopIteration:
+            self.dimse_gen = None
+            return False
+        except Exception:  # pylint: disable=broad-except
+            # Message can not be encoded (any further), e.g. maximum PDU length of the peer is
+            # too small to carry any data: association can not go on, provider aborts it (AA-8)
+            self.dimse_gen = None
+            self.primitive = None
+            self.event.append(fsm.Events.EVT_19)
+            return False
+        self.event.append(PDU_TO_EVENT[self.primitive.pdu_type])
+        return True
 
     def _check_timer(self):
         if self.timer.check() is False:
